@@ -80,6 +80,12 @@ func parseScalarText(fd protoreflect.FieldDescriptor, s string) (protoreflect.Va
 // checkC01 : Go client to Go server, every RPC delivers the exact request and response.
 func checkC01(c *chk.Ctx) {
 	set := pluginSet(c)
+	// design level: the client contract (SentMatches) composed with the server life cycle (SebufWire) and the
+	// client's mapping of the answer - every allowed encoding x every schedule delivers the caller's value
+	runMC(c, "MC_EndToEnd", "MC_EndToEnd.cfg", nil, false)
+	if c.Thorough() {
+		runMC(c, "MC_EndToEnd", "MC_EndToEnd_findings.cfg", nil, false)
+	}
 	res := runMC(c, "MC_Call", "MC_Call.cfg", nil, true)
 	var cases []callCase
 	raws := make([]string, 0, len(res.Cases))
@@ -131,7 +137,8 @@ func checkC01(c *chk.Ctx) {
 			schema.Files = append(schema.Files, f)
 		}
 		pk := f.Pkg
-		sh.svc, sh.meth, sh.in = fmt.Sprintf("S%d", sh.idx), fmt.Sprintf("M%d", sh.idx), fmt.Sprintf("%s.Req%d", pk, sh.idx)
+		// service names repeat from package to package (S0 .. S39 in each), each service has a base path of its own
+		sh.svc, sh.meth, sh.in = fmt.Sprintf("S%d", sh.idx%40), fmt.Sprintf("M%d", sh.idx), fmt.Sprintf("%s.Req%d", pk, sh.idx)
 		msg := &abs.Message{Name: fmt.Sprintf("Req%d", sh.idx)}
 		if cc.Route != "default" {
 			msg.Fields = append(msg.Fields,
@@ -177,8 +184,8 @@ func checkC01(c *chk.Ctx) {
 			// no http config at all: the route is the documented default one
 			f.Services = append(f.Services, &abs.Service{Name: sh.svc, Methods: []*abs.Method{{Name: sh.meth, In: sh.in, Out: pk + ".Out"}}})
 		} else {
-			f.Services = append(f.Services, &abs.Service{Name: sh.svc, Methods: []*abs.Method{{Name: sh.meth, In: sh.in, Out: pk + ".Out", HasCfg: true,
-				Path: fmt.Sprintf("/s%d/{p}", sh.idx), Verb: cc.Verb}}})
+			f.Services = append(f.Services, &abs.Service{Name: sh.svc, HasBase: true, BasePath: fmt.Sprintf("/b%d", sh.idx),
+				Methods: []*abs.Method{{Name: sh.meth, In: sh.in, Out: pk + ".Out", HasCfg: true, Path: fmt.Sprintf("/s%d/{p}", sh.idx), Verb: cc.Verb}}})
 		}
 		shapes[k] = sh
 		order = append(order, sh)
@@ -386,8 +393,10 @@ func checkC01(c *chk.Ctx) {
 			switch e["event"] {
 			case "Sent":
 				path, _ := e["path"].(string)
-				parts := strings.Split(strings.TrimPrefix(path, "/"), "/")
-				litsOK := len(parts) == 2 && parts[0] == fmt.Sprintf("s%d", p.sh.idx)
+				base := fmt.Sprintf("/b%d", p.sh.idx)
+				hasBase := p.cc.Route == "default" || strings.HasPrefix(path, base+"/")
+				parts := strings.Split(strings.TrimPrefix(strings.TrimPrefix(path, base), "/"), "/")
+				litsOK := hasBase && len(parts) == 2 && parts[0] == fmt.Sprintf("s%d", p.sh.idx)
 				if p.cc.Route == "default" {
 					// documented default: /<go package name>/<snake_case method>
 					litsOK = path == fmt.Sprintf("/cl%d/m%d", p.sh.pkg, p.sh.idx)
